@@ -149,22 +149,47 @@ func mapsHaveSameStructure(originalMap, compactedMap map[string]interface{}) boo
 	}
 
 	for k, v1 := range original {
-		v1Map, isMap := v1.(map[string]interface{})
-		if !isMap {
-			continue
-		}
-
 		v2, present := compacted[k]
 		if !present { // special case - the name of the map was mapped, cannot guess what's a new name
 			continue
 		}
 
-		v2Map, isMap := v2.(map[string]interface{})
+		switch v1Typed := v1.(type) {
+		case map[string]interface{}:
+			v2Map, isMap := v2.(map[string]interface{})
+			if !isMap {
+				return false
+			}
+
+			if !mapsHaveSameStructure(v1Typed, v2Map) {
+				return false
+			}
+		case []interface{}:
+			v2Slice, isSlice := v2.([]interface{})
+			if !isSlice || !slicesHaveSameStructure(v1Typed, v2Slice) {
+				return false
+			}
+		}
+	}
+
+	return true
+}
+
+// slicesHaveSameStructure compares the objects found in an array with the objects at the same positions of the
+// compacted array (an undefined property inside an array element is dropped by compaction just like anywhere else).
+func slicesHaveSameStructure(original, compacted []interface{}) bool {
+	if len(original) != len(compacted) {
+		return false
+	}
+
+	for i := range original {
+		v1Map, isMap := original[i].(map[string]interface{})
 		if !isMap {
-			return false
+			continue
 		}
 
-		if !mapsHaveSameStructure(v1Map, v2Map) {
+		v2Map, isMap := compacted[i].(map[string]interface{})
+		if !isMap || !mapsHaveSameStructure(v1Map, v2Map) {
 			return false
 		}
 	}
